@@ -40,7 +40,7 @@ func init() {
 		Rule: "seeded part: one run = an everything-profile history (all four custom modules incl. signature registry traffic and governance updates) with an export/import at a random height, then 4-10 further blocks on both chains; " +
 			"enumeration part: for a set of short base histories the export/import is placed after every height in turn. non-trivial = the restored chain executed blocks with mints/distributions or custom messages after the import; " +
 			"distinct = hash of what the exported state contained (pools, traces, distributor leftovers incl. burn, minter history, signature records, open proposals), probes and outcome",
-		Quick:      Tier{Runs: 250, BudgetSec: 55},
+		Quick:      Tier{Runs: 600, BudgetSec: 55},
 		Thorough:   Tier{Runs: 15000, BudgetSec: 700},
 		RunSeed:    c12RunSeed,
 		Replay:     c12Replay,
